@@ -20,11 +20,14 @@ import (
 	"encoding/json"
 	"fmt"
 	"math/big"
+	"os"
 	"reflect"
 	"runtime/debug"
 	"strings"
 
 	"github.com/ethereum/go-ethereum/rlp"
+	"github.com/inconshreveable/log15"
+	"google.golang.org/protobuf/encoding/protowire"
 
 	"github.com/zenon-network/go-zenon/chain/nom"
 	"github.com/zenon-network/go-zenon/common"
@@ -797,6 +800,11 @@ func codecBlockCase(c *Ctx, b *nom.AccountBlock) {
 		}
 		return hx(data)
 	}))
+	if data, err := b.Serialize(); err == nil && len(data) < 6000 {
+		codecDecodeBlock(c, data, "canonical")
+		v, kind := wireVariant(c, data)
+		codecDecodeBlock(c, v, kind)
+	}
 	switch {
 	case b.Amount == nil:
 		c.Hit("ab-amount-nil")
@@ -843,6 +851,11 @@ func codecMomentumCase(c *Ctx, m *nom.Momentum, blocks []*nom.AccountBlock) {
 		}
 		return hx(data)
 	}))
+	if data, err := m.Serialize(); err == nil && len(data) < 6000 {
+		codecDecodeMomentum(c, data, "canonical")
+		v, kind := wireVariant(c, data)
+		codecDecodeMomentum(c, v, kind)
+	}
 	c.Hit(fmt.Sprintf("mom-content-%s", bucket(len(m.Content))))
 	momentumRoundTrips(c, m, blocks)
 	momSensitivity(c, m)
@@ -859,6 +872,132 @@ func bucket(n int) string {
 	default:
 		return ">=20"
 	}
+}
+
+// ---- protobuf decoder on canonical and re-arranged wire forms -----------------------------------------------
+
+type wireRec struct {
+	num protowire.Number
+	typ protowire.Type
+	raw []byte // the whole record
+}
+
+func splitRecords(data []byte) ([]wireRec, bool) {
+	var recs []wireRec
+	for len(data) > 0 {
+		num, typ, n := protowire.ConsumeField(data)
+		if n < 0 {
+			return nil, false
+		}
+		recs = append(recs, wireRec{num, typ, data[:n]})
+		data = data[n:]
+	}
+	return recs, true
+}
+
+func joinRecords(recs []wireRec) []byte {
+	var out []byte
+	for _, r := range recs {
+		out = append(out, r.raw...)
+	}
+	return out
+}
+
+// variants of a serialized message that stay inside the wire format the model covers (no groups)
+func wireVariant(c *Ctx, data []byte) ([]byte, string) {
+	recs, ok := splitRecords(data)
+	if !ok || len(recs) == 0 {
+		return data, "canonical"
+	}
+	switch c.R.Intn(9) {
+	case 0: // shuffled record order
+		c.R.Shuffle(len(recs), func(i, j int) { recs[i], recs[j] = recs[j], recs[i] })
+		return joinRecords(recs), "shuffled"
+	case 1: // one record twice (last scalar wins, messages merge, repeated appends)
+		i := c.R.Intn(len(recs))
+		recs = append(recs, recs[i])
+		return joinRecords(recs), "duplicated"
+	case 2: // one record dropped (nil sub-message / short field => panic in DeProto)
+		i := c.R.Intn(len(recs))
+		recs = append(recs[:i:i], recs[i+1:]...)
+		return joinRecords(recs), "dropped"
+	case 3: // truncated
+		return data[:c.R.Intn(len(data))], "truncated"
+	case 4: // unknown fields: varint, fixed32, fixed64, bytes with unused numbers
+		var extra []byte
+		extra = protowire.AppendTag(extra, protowire.Number(16+32*c.R.Intn(3)), protowire.VarintType)
+		extra = protowire.AppendVarint(extra, cRandU64(c))
+		extra = protowire.AppendTag(extra, 100, protowire.Fixed32Type)
+		extra = protowire.AppendFixed32(extra, c.R.Uint32())
+		extra = protowire.AppendTag(extra, 101, protowire.Fixed64Type)
+		extra = protowire.AppendFixed64(extra, c.R.Uint64())
+		extra = protowire.AppendTag(extra, 102, protowire.BytesType)
+		extra = protowire.AppendBytes(extra, cRandBytes(c, c.R.Intn(5)))
+		if c.R.Intn(2) == 0 {
+			return append(extra, data...), "unknown-fields"
+		}
+		return append(append([]byte{}, data...), extra...), "unknown-fields"
+	case 5: // a known field with the wrong wire type (skipped as unknown), then the real one or not
+		i := c.R.Intn(len(recs))
+		var extra []byte
+		if recs[i].typ == protowire.VarintType {
+			extra = protowire.AppendTag(extra, recs[i].num, protowire.BytesType)
+			extra = protowire.AppendBytes(extra, cRandBytes(c, c.R.Intn(4)))
+		} else {
+			extra = protowire.AppendTag(extra, recs[i].num, protowire.VarintType)
+			extra = protowire.AppendVarint(extra, cRandU64(c))
+		}
+		return append(append([]byte{}, data...), extra...), "wrong-wire-type"
+	case 6: // a scalar overwritten by a later record, non-minimal varint
+		var extra []byte
+		extra = protowire.AppendTag(extra, 1, protowire.VarintType)
+		v := cRandU64(c)
+		extra = protowire.AppendVarint(extra, v)
+		if c.R.Intn(2) == 0 && v < 128 {
+			extra = append(extra[:len(extra)-1], byte(v)|0x80, 0x80, 0x00)
+		}
+		return append(append([]byte{}, data...), extra...), "overwritten"
+	case 7: // a sub-message whose content has the wrong width (DeProto panics) or is empty
+		var extra []byte
+		nums := []protowire.Number{4, 5, 8, 9, 12, 21, 3}
+		extra = protowire.AppendTag(extra, nums[c.R.Intn(len(nums))], protowire.BytesType)
+		var inner []byte
+		if c.R.Intn(3) != 0 {
+			inner = protowire.AppendTag(inner, 1, protowire.BytesType)
+			inner = protowire.AppendBytes(inner, cRandBytes(c, []int{0, 1, 19, 20, 21, 31, 32, 33}[c.R.Intn(8)]))
+		}
+		extra = protowire.AppendBytes(extra, inner)
+		return append(append([]byte{}, data...), extra...), "sub-message"
+	default: // 11-byte varint / field number 0
+		if c.R.Intn(2) == 0 {
+			return append(append([]byte{}, data...), 0x08, 0x80, 0x80, 0x80, 0x80, 0x80, 0x80, 0x80, 0x80, 0x80, 0x80, 0x01), "varint-overflow"
+		}
+		return append(append([]byte{}, data...), 0x00, 0x01), "field-number-0"
+	}
+}
+
+func codecDecodeBlock(c *Ctx, data []byte, kind string) {
+	res := guard(func() string {
+		b, err := nom.DeserializeAccountBlock(data)
+		if err != nil {
+			return "err"
+		}
+		return "ok " + blockStr(b)
+	})
+	c.Emit("ab-depb %s | %s", hx(data), res)
+	c.Hit("ab-depb-" + kind + "-" + strings.SplitN(res, " ", 2)[0])
+}
+
+func codecDecodeMomentum(c *Ctx, data []byte, kind string) {
+	res := guard(func() string {
+		m, err := nom.DeserializeMomentum(data)
+		if err != nil {
+			return "err"
+		}
+		return "ok " + momentumStr(m)
+	})
+	c.Emit("mom-depb %s | %s", hx(data), res)
+	c.Hit("mom-depb-" + kind + "-" + strings.SplitN(res, " ", 2)[0])
 }
 
 // ---- JSON number / string forms -----------------------------------------------------------------------
@@ -912,6 +1051,14 @@ func init() {
 	register("codec", func(c *Ctx) {
 		// many short-lived deep copies of blocks: collect less often
 		defer debug.SetGCPercent(debug.SetGCPercent(1600))
+		// common.DealWithErr logs and prints a stack trace to os.Stdout before it re-panics (BytesToZTSPanic in
+		// DeProtoAccountBlock): keep that out of the trace; the stream writer already holds the real stdout
+		log15.Root().SetHandler(log15.DiscardHandler())
+		if devnull, err := os.OpenFile(os.DevNull, os.O_WRONLY, 0); err == nil {
+			old := os.Stdout
+			os.Stdout = devnull
+			defer func() { os.Stdout = old; devnull.Close() }()
+		}
 		for _, s := range oddAmountStrings {
 			codecAmountParse(c, s)
 		}
